@@ -199,8 +199,39 @@ func c01IsInt(t types.Type) bool {
 func (h *c01Health) buildCounters() {
 	h.parent = map[ssa.Value]ssa.Value{}
 	var incs []*ssa.BinOp
+	// a counter kept in memory (a field of a tally struct, a captured variable): its loads and the values stored into
+	// it belong to one variable
+	type cellKey struct {
+		root ssa.Value
+		path string
+	}
+	tr := newC01Tr(h.c)
+	rep := map[cellKey]ssa.Value{}
+	cell := func(addr, v ssa.Value) {
+		if _, isK := v.(*ssa.Const); isK {
+			return
+		}
+		locs := tr.locsOf(addr, nil)
+		if len(locs) != 1 || !locs[0].known() {
+			return
+		}
+		k := cellKey{locs[0].root, locs[0].path}
+		if r, ok := rep[k]; ok {
+			h.union(v, r)
+		} else {
+			rep[k] = v
+		}
+	}
 	eachInstrOf(h.reg, func(f *ssa.Function, i ssa.Instruction) {
 		switch x := i.(type) {
+		case *ssa.UnOp:
+			if x.Op == token.MUL && c01IsInt(x.Type()) {
+				cell(x.X, x)
+			}
+		case *ssa.Store:
+			if c01IsInt(x.Val.Type()) {
+				cell(x.Addr, x.Val)
+			}
 		case *ssa.Phi:
 			if c01IsInt(x.Type()) {
 				for _, e := range x.Edges {
